@@ -26,7 +26,8 @@ LEVEL = "proof"
 THEOREMS = "Props/C05.v"
 EXTRA_TARGETS = ("PBC/Check.vo",)
 EXTS = ["_geometry"]
-RULE = ("[cell kinds: 9 named shapes + all 8 zero/non-zero patterns of (b_x, c_x, c_y) + rotated cells for "
+RULE = ("[cell series: one of the six box components changes per frame, tilt-only stretches with a frozen diagonal, "
+        "repeated cells] [cell kinds: 9 named shapes + all 8 zero/non-zero patterns of (b_x, c_x, c_y) + rotated cells for "
         "compute_distances_core; every case contains (i,i), coincident-atom and exact-periodic-image pairs; "
         "compute_distances_t gets every ordered frame pair, find_closest_contact every frame with possibly overlapping "
         "groups; opt=True vs opt=False compared entry by entry over the whole separation range] "
@@ -527,16 +528,45 @@ def gen_case(rng, kind, tier):
             return c
 
 
+def gen_cell_series(rng):
+    """A cell under deformation: from one frame to the next EXACTLY ONE of the six independent components
+    (a_x, b_x, b_y, c_x, c_y, c_z) changes, all others stay bit-identical; every component changes once (random
+    order), one frame repeats its predecessor, and the three tilt components additionally change on their own while
+    the diagonal is frozen (shear at constant a_x, b_y, c_z)."""
+    base = gen_cell(rng, rng.choice(["triclinic", "monoclinic", "zeros2", "zeros5", "zeros7", "rhombdod_sq"]))
+    comps = [(0, 0), (1, 0), (1, 1), (2, 0), (2, 1), (2, 2)]
+    order = comps[:]
+    rng.shuffle(order)
+    order += [(1, 0), (2, 0), (2, 1)]            # tilt-only tail: diagonal untouched for three consecutive frames
+    cells = [[list(v) for v in base]]
+    for (i, j) in order:
+        c = [list(v) for v in cells[-1]]
+        scale = base[j][j]
+        d = int(rng.choice([-1, 1]) * rng.uniform(0.04, 0.12) * scale)
+        if i == j and c[i][j] + d < U:            # keep the diagonal comfortably positive
+            d = abs(d)
+        c[i][j] += d if d != 0 else 7
+        cells.append(c)
+        if rng.random() < 0.25:
+            cells.append([list(v) for v in c])   # a repeated cell (constant-volume stretch)
+    return cells
+
+
 def _gen_case(rng, kind, tier):
+    series = kind == "series"
     n_frames = rng.choice([1, 2, 3])
-    n_atoms = rng.randint(2, 7)
-    perframe = rng.random() < 0.5
-    unred = rng.random() < 0.4
+    n_atoms = rng.randint(2, 7) if not series else rng.randint(2, 4)
+    perframe = rng.random() < 0.5 or series
+    unred = rng.random() < 0.4 and not series
     spread = rng.choice([0, 1, 3, 20])
     special = rng.random() < 0.3
     cells = []
-    base = gen_cell(rng, kind)
-    for f in range(n_frames):
+    if series:
+        cells = gen_cell_series(rng)
+        n_frames = len(cells)
+    else:
+        base = gen_cell(rng, kind)
+    for f in range(n_frames if not series else 0):
         if perframe and f > 0:
             k2 = kind if rng.random() < 0.6 else rng.choice(CELL_KINDS + ZERO_KINDS)
             c = gen_cell(rng, k2)
@@ -558,8 +588,13 @@ def _gen_case(rng, kind, tier):
     i0 = rng.randrange(n_atoms)
     pairs = gen_pairs(rng, n_atoms, rng.randint(1, 5)) + [[i0, i0], [0, n_atoms - 1], [1, n_atoms - 2]]
     # every ordered pair of frames (incl. t1 == t2) once, plus a repeated one
-    times = [[t1, t2] for t1 in range(n_frames) for t2 in range(n_frames)]
-    rng.shuffle(times)
+    if series:
+        # consecutive frames in both directions, same first frame repeated, first frames in file order
+        times = [[t, t + 1] for t in range(n_frames - 1)] + [[t + 1, t] for t in range(n_frames - 1)] + \
+                [[t, t] for t in range(n_frames)]
+    else:
+        times = [[t1, t2] for t1 in range(n_frames) for t2 in range(n_frames)]
+        rng.shuffle(times)
     times.append(list(times[0]))
     # the two groups may overlap (closest contact of an atom with itself / a coincident atom / its own image)
     g1 = sorted(rng.sample(range(n_atoms), rng.randint(1, max(1, n_atoms // 2))))
@@ -578,7 +613,7 @@ def _gen_case(rng, kind, tier):
     calls.append({"api": "dist", "opt": not o, "periodic": False, "pairs": pairs})
     calls.append({"api": "dist_t", "opt": o, "periodic": False, "pairs": pairs, "times": times})
     calls.append({"api": "core", "opt": o, "periodic": True, "pairs": pairs})
-    for fr in range(n_frames):
+    for fr in (range(n_frames) if not series else rng.sample(range(n_frames), 3)):
         calls.append({"api": "fcc", "periodic": True, "g1": g1, "g2": g2, "frame": fr})
     calls.append({"api": "fcc", "periodic": False, "g1": g1, "g2": g2, "frame": rng.randrange(n_frames)})
     return {"kind": kind, "unreduced": unred, "perframe": perframe, "spread": spread, "special": special,
@@ -641,7 +676,7 @@ def fixed_cases():
 
 def build_cases(ctx):
     rng = ctx.rng
-    n = 6 if ctx.tier == "quick" else 130
+    n = 5 if ctx.tier == "quick" else 130
     cases = fixed_cases()
     for kind in CELL_KINDS:
         for _ in range(n if kind != "triclinic" else 3 * n):
@@ -649,6 +684,9 @@ def build_cases(ctx):
     for kind in ZERO_KINDS:
         for _ in range(max(2, n // 4)):
             cases.append(gen_case(rng, kind, ctx.tier))
+    # cells under deformation: one component changes per frame (see gen_cell_series)
+    for _ in range(3 if ctx.tier == "quick" else 60):
+        cases.append(gen_case(rng, "series", ctx.tier))
     return cases
 
 
@@ -1275,7 +1313,7 @@ def search(ctx, broken):
     """A proof or the tie broke and the correspondence run found no property failure: widen the oracle run."""
     rng = ctx.rng
     for rnd in range(6 if ctx.tier == "quick" else 30):
-        cases = [gen_case(rng, rng.choice(CELL_KINDS + ZERO_KINDS), ctx.tier) for _ in range(40)]
+        cases = [gen_case(rng, rng.choice(CELL_KINDS + ZERO_KINDS + ["series"]), ctx.tier) for _ in range(40)]
         run_cases(ctx, cases, oracle_only=True)
         if ctx.failures:
             return
